@@ -52,6 +52,7 @@ type poolCall struct {
 	Blank   bool // a blank Println(): no arguments at all
 	Slog    bool // through a log/slog logger derived (per goroutine) from one shared WithGroup handler
 	Bridge  bool // through a std log.Logger built on the logger (NewLogLogger)
+	List    int  // > 0: WriteThru is handed the shared attribute list number List-1 itself (no per-call list)
 }
 
 type poolEnv struct {
@@ -60,6 +61,8 @@ type poolEnv struct {
 	shared2 slog.Attr
 	more    []slog.Attr // further shared groups, built in every way the API offers
 	sharedV slog.Attrs  // an Attrs value shared as a plain attribute VALUE
+	lists   []slog.Attrs // attribute LISTS shared between calls: handed as they are to the entry point that takes a list (WriteThru)
+	lists0  []slog.Attrs // what they held when they were built
 	slow    bool
 	ts      time.Time
 	rec     *poolRecorder
@@ -155,6 +158,15 @@ func newPoolEnv(nLoggers int) *poolEnv {
 		slog.NewGroupedAttr("one", slog.Int("only", 1)),
 	}
 	e.sharedV = slog.Attrs{slog.Int("vb", 1), slog.Int("va", 2), slog.Int("va", 3)}
+	e.lists = []slog.Attrs{
+		{slog.Int("lb", 1), slog.Int("la", 2), slog.Int("lb", 3)},                      // unsorted, duplicate key
+		{slog.Int("la", 1), slog.Int("lb", 2), slog.Int("lc", 3)},                      // in key order, no duplicate
+		{slog.String("lz", "z"), e.shared, slog.Int("lm", 1), e.more[2], slog.Int("la", 5)}, // with shared groups as members
+		{slog.Int("only", 1)},
+	}
+	for _, l := range e.lists {
+		e.lists0 = append(e.lists0, append(slog.Attrs(nil), l...))
+	}
 	root := slog.New("root").Root()
 	root.SetWriter(e.rec).SetErrorWriter(e.rec).SetLevel(slog.InfoLevel).SetColorMode(false)
 	root.SetAttrs(slog.Int("rootattr", 1), e.shared2)
@@ -239,6 +251,10 @@ func (e *poolEnv) issue(c *poolCall) {
 		lv := map[slog.Level]logslog.Level{slog.InfoLevel: logslog.LevelInfo, slog.WarnLevel: logslog.LevelWarn,
 			slog.ErrorLevel: logslog.LevelError, slog.DebugLevel: logslog.LevelDebug}[c.Sev]
 		e.slogChild(c.G, c.Logger).Log(context.Background(), lv, c.Msg, "id", c.ID, "kind", c.ArgKind, logslog.Group("in", "g", c.G, "c", c.C))
+		return
+	}
+	if c.Thru && c.List > 0 {
+		l.WriteThru(context.Background(), c.Sev, e.ts, 0, c.Msg, e.lists[c.List-1])
 		return
 	}
 	if c.Thru {
@@ -339,6 +355,9 @@ func poolStress(args []string) int {
 			} else if !pc.Blank && rng.Intn(6) == 0 && (pc.Sev == slog.InfoLevel || pc.Sev == slog.WarnLevel || pc.Sev == slog.ErrorLevel || pc.Sev == slog.DebugLevel) {
 				pc.Slog, pc.Thru = true, false
 			}
+			if pc.Thru && pc.ID%5 == 0 { // (derived from the id: the random stream of the other choices stays what it was)
+				pc.List = 1 + (pc.ID/5)%len(env.lists)
+			}
 			calls = append(calls, pc)
 			perG[g] = append(perG[g], pc)
 		}
@@ -372,6 +391,9 @@ func poolStress(args []string) int {
 		}
 	}
 	addShared(env.sharedV)
+	for _, l := range env.lists {
+		sharedPtrs[uintptr(unsafe.Pointer(unsafe.SliceData(l)))] = true
+	}
 	if mode == "slow" || mode == "barrier" {
 		atomic.StoreInt32(&poolSlow, 1)
 	}
@@ -465,6 +487,15 @@ func poolStress(args []string) int {
 	concurrent := env.rec.payloads
 	concurrentDst := env.rec.dsts
 	env.rec.clear()
+	// the lists the goroutines shared: a call may read them, they still hold what the program put there
+	// (observed without any hook; compared member by member, by identity)
+	listSame := make([]bool, len(env.lists))
+	for k, l := range env.lists {
+		listSame[k] = len(l) == len(env.lists0[k])
+		for i := 0; listSame[k] && i < len(l); i++ {
+			listSame[k] = l[i] == env.lists0[k][i]
+		}
+	}
 
 	// ---- sequential reference: every call alone
 	for _, e := range events {
@@ -529,6 +560,15 @@ func poolStress(args []string) int {
 			}
 			out.emit(rec)
 		}
+	}
+	for k := range env.lists {
+		uses := 0
+		for _, c := range calls {
+			if c.List == k+1 {
+				uses++
+			}
+		}
+		out.emit(map[string]any{"ev": "list", "a": k + 1, "same": listSame[k], "n": uses})
 	}
 	out.emit(map[string]any{"ev": "blank", "got": blanks, "want": wantBlanks})
 	out.emit(map[string]any{"ev": "end", "calls": len(calls), "payloads": len(concurrent), "torn": torn, "hook_events": len(events)})
@@ -657,6 +697,9 @@ func (e *histEnv) emit(id int, viaVerb bool) {
 	}
 	var pcs [1]uintptr
 	runtime.Callers(1, pcs[:])
+	if histLibSite != 0 {
+		pcs[0] = histLibSite // environment "providers": a call site inside the library
+	}
 	if shape == 2 || shape == 5 || shape == 8 || shape == 14 {
 		pcs[0] = 0 // a record without a call site (what the adapters pass when the source is unknown)
 	}
@@ -670,6 +713,7 @@ func histSetup() *histEnv {
 	_ = slog.RegisterLevel(slog.Level(42), "C42", slog.RegWithColor(93, 44))
 	_ = slog.RegisterLevel(slog.Level(43), "C43")
 	slog.SetFlags(slog.LstdFlags | slog.LnoInterrupt)
+	histProvidersSetup() // environment "providers": an overlapping hosting provider, Lcallerpackagename
 	return newHistEnv()
 }
 
@@ -725,6 +769,7 @@ func poolHistory(args []string) int {
 		readJSON(args[2], &external)
 	}
 	env := histSetup()
+	envKind := histEnvKind() // are the default protected directories nested above the call site's file
 	debug.SetGCPercent(-1)
 	runtime.LockOSThread()
 	var lastPut, lastGet uintptr
@@ -775,7 +820,7 @@ func poolHistory(args []string) int {
 		if len(env.rec.payloads) == 1 {
 			got = env.rec.payloads[0]
 		}
-		rec := map[string]any{"ev": "probe", "b": bi + 1, "history": b.History, "probe": b.Probe,
+		rec := map[string]any{"ev": "probe", "b": bi + 1, "history": b.History, "probe": b.Probe, "env": envKind,
 			"same": bytes.Equal(got, want) && got != nil, "reused": reused && len(b.History) > 0}
 		if !bytes.Equal(got, want) {
 			rec["got"] = string(got)
@@ -839,7 +884,7 @@ func poolAfterCore(args []string) int {
 			for i, x := range ints {
 				want[i] = byte(x)
 			}
-			rec := map[string]any{"ev": "probe", "b": bi + 1, "history": []int{}, "probe": p,
+			rec := map[string]any{"ev": "probe", "b": bi + 1, "history": []int{}, "probe": p, "env": histEnvKind(),
 				"same": bytes.Equal(got, want) && got != nil, "reused": true}
 			if !bytes.Equal(got, want) {
 				rec["got"] = string(got)
